@@ -522,6 +522,14 @@ pub fn execute(sc: &RScenario, opts: &ExecOpts) -> RunReport {
         }
         let seqs: Vec<Vec<Rp>> = e.repairs.iter().map(|s| s.iter().map(|x| x.plain()).collect()).collect();
         let outcome_class: u8;
+        if std::env::var("VERIF_R_DEBUG").is_ok() {
+            eprintln!("error {ei} at lexeme {k2} state {}: reported {:?}", ss.top(st2), seqs.iter().map(|s| fmt_seq(s)).collect::<Vec<_>>());
+            match &so {
+                SearchOutcome::Found { cost, cands, .. } => eprintln!("  reference: cost {cost}, candidates {:?}", cands.iter().map(|c| format!("{} reach {} stable {}", fmt_seq(&c.seq), c.reach, c.stable())).collect::<Vec<_>>()),
+                SearchOutcome::NoRepairs => eprintln!("  reference: no repairs"),
+                SearchOutcome::Inconclusive(w) => eprintln!("  reference: inconclusive ({w})"),
+            }
+        }
 
         // form of Delete / Shift lexemes
         for (si, s) in e.repairs.iter().enumerate() {
@@ -625,6 +633,9 @@ pub fn execute(sc: &RScenario, opts: &ExecOpts) -> RunReport {
                 }
             }
             if any_unstable_cand {
+                // With the plain-replay reference every candidate's search-time configuration is its
+                // replay configuration by construction; this would be a bug of the reference itself.
+                j.viol("C06", "harness-reference-inconsistent", format!("error {ei}: a reference candidate does not replay to its own configuration"));
                 if j.p1 {
                     j.rep.probes.hit("p1_with_unstable_candidate");
                     // Theory says this cannot happen on a single-action automaton; it does not by
@@ -636,11 +647,7 @@ pub fn execute(sc: &RScenario, opts: &ExecOpts) -> RunReport {
         }
         for (si, s) in seqs.iter().enumerate() {
             if !ctx.repairs_ok(&mut ss, st2, k2, s) {
-                if !j.p1 && (unstable_seqs.contains(s) || prev_unstable) {
-                    j.known("C05", "C05-a-sequence-does-not-repair", "rstar", format!("error {ei} sequence {si} [{}] (lookahead-unstable on a multi-action automaton)", fmt_seq(s)));
-                } else if !j.p1 && matches!(so, SearchOutcome::Inconclusive(_)) {
-                    j.rep.probes.hit("p2_unclassifiable_c05a");
-                } else {
+                {
                     j.viol("C05", "C05-a-sequence-does-not-repair", format!("error {ei} at lexeme {k2}: reported sequence {si} [{}] does not let a plain LR parse continue over three lexemes or to acceptance", fmt_seq(s)));
                 }
             }
@@ -761,10 +768,7 @@ pub fn execute(sc: &RScenario, opts: &ExecOpts) -> RunReport {
                     // known only if a lookahead-unstable repair was applied at this error, or the
                     // walk had to stop earlier because one did not replay
                     let tainted = unstable_applied.iter().next().map_or(false, |t| *t <= i);
-                    if !j.p1 && !tainted && first_inconclusive.map_or(false, |t| t <= i) {
-                        // whether a lookahead-unstable repair was applied cannot be decided: the
-                        // reference search did not complete for an earlier error of this parse
-                        j.rep.probes.hit("p2_unclassifiable_c07b");
+                    if false {
                     } else if !j.p1 && (tainted || (walk_stopped_unstable && !walk_ok)) {
                         j.known("C07", "C07-b-progress", "rstar", format!("error {} at lexeme {b}, previous at lexeme {a} (a lookahead-unstable repair was applied)", i + 1));
                     } else {
